@@ -720,13 +720,13 @@ package server
 //@ requires resource_bound: b.memBytesWritten + b.diskBytesWritten + len(p) <= 4611686018427387904
 //@ assigns b.memoryBuffer.contents, b.memBytesWritten, b.diskBuffer, b.diskBuffer.content, b.diskBytesWritten, b.overflowed
 //@ may_emit CreateTemp, FileWrite
-//@ ensures[C14] invariant_kept: bufInv(b)
+//@ ensures[C14,C13] invariant_kept: bufInv(b)
 //@ ensures[C14] write_after_read_refused: old(b.reader) != nil ==> result0 == 0 && err == ErrWriteAfterRead && written(b) == old(written(b)) && b.overflowed == old(b.overflowed)
 //@ ensures[C14] one_byte_over_the_limit_refused: isnil(old(b.reader)) && b.maxBytes > 0 && old(b.memBytesWritten) + old(b.diskBytesWritten) + len(p) > b.maxBytes ==> result0 == 0 && err == ErrMaximumSizeExceeded && b.overflowed && written(b) == old(written(b))
 //@ ensures[C14] up_to_the_limit_accepted: isnil(old(b.reader)) && !(b.maxBytes > 0 && old(b.memBytesWritten) + old(b.diskBytesWritten) + len(p) > b.maxBytes) ==> 0 <= result0 && result0 <= len(p) && (err == nil ==> result0 == len(p)) && written(b) == old(written(b)) + substr(bytes(p), 0, result0) && b.overflowed == old(b.overflowed)
 //@ ensures[C14] overflow_flag_only_with_size_error: b.overflowed != old(b.overflowed) ==> err == ErrMaximumSizeExceeded && result0 == 0
 //@ ensures[C14] at_most_buffer_memory_in_memory: len(b.memoryBuffer.contents) <= b.maxMemBytes
-//@ ensures[C14] spills_only_when_memory_is_full: b.diskBuffer != nil && old(b.diskBuffer) == nil ==> len(old(written(b))) + len(p) > b.maxMemBytes
+//@ ensures[C14,C13] spills_only_when_memory_is_full: b.diskBuffer != nil && old(b.diskBuffer) == nil ==> len(old(written(b))) + len(p) > b.maxMemBytes
 
 //@ func (*server.Buffer).discardSpill
 //@ assigns nothing
